@@ -517,12 +517,13 @@ def rot_y(a):
     return np.array([[c, 0, s], [0, 1, 0], [-s, 0, c]])
 
 
-def section_local(seg, span, pts):
+def section_local(seg, span, pts, shear=False):
     """independent of the export code: body-frame points -> section coordinates (chordwise, spanwise, thickness) in chords, using the documented
     placement: quarter chord on the curve checked in C12, rotated by dihedral about x and then by twist about y"""
     qc = seg._get_quarter_chord_loc(span)
     dih, tw, c = float(seg.get_dihedral(span)), float(seg.get_twist(span)), float(seg.get_chord(span))
-    R = rot_x(dih) @ rot_y(tw)
+    # "shear_dihedral": the dihedral is a shear transformation (like sweep): the sections stay in planes y = const and are only twisted
+    R = rot_y(tw) if shear else rot_x(dih) @ rot_y(tw)
     loc = (np.asarray(pts) - np.asarray(qc).reshape(1, 3)) @ R          # R^T applied to each row
     return loc, c
 
@@ -612,6 +613,61 @@ def check_outline_blend(chk, MX, tmp):
                                                                    what="the exported %s section is not the %s airfoil's outline (distance %.3g)" % (where, names[0 if where == "root" else -1], dist_)))
 
 
+def read_vtk(path):
+    txt = open(path).read().split("\n")
+    ip = [i for i, l in enumerate(txt) if l.startswith("POINTS")][0]
+    npts = int(txt[ip].split()[1])
+    pts = np.array([[float(x) for x in l.split()] for l in txt[ip + 1:ip + 1 + npts]])
+    ig = ip + 1 + npts
+    npoly, nint = int(txt[ig].split()[1]), int(txt[ig].split()[2])
+    polys = [[int(x) for x in l.split()] for l in txt[ig + 1:ig + 1 + npoly]]
+    return pts, polys, nint
+
+
+def check_vtk_caps(chk, MX, tmp):
+    """VTK export with closed / rounded wing ends (CAD_options): the end caps add polygons (triangles among them); every record is
+    well-formed and every panel of the plain export is still there, vertex for vertex"""
+    rng = chk.rng
+    opts = [{"close_wing_tip": True}, {"close_wing_root": True, "close_wing_tip": True}, {"round_wing_tip": True, "n_rounding_sections": 4},
+            {"close_wing_root": True}]
+    for it in range(chk.q(3, 12)):
+        ac = gen.simple_wing_aircraft(N=rng.randint(3, 5), reid=False, dihedral=rng.choice([None, 6.0]))
+        R = rng.choice([6, 8, 10])
+        o = opts[it % len(opts)]
+        rep = dict(kind="vtk-caps", aircraft=ac, CAD_options=o, section_resolution=R)
+        out = []
+        try:
+            for capped in (False, True):
+                a2 = copy.deepcopy(ac)
+                if capped:
+                    a2["wings"]["main_wing"]["CAD_options"] = dict(o)
+                sc = gen.build_scene(MX, {"scene": {"atmosphere": {"rho": 0.0023769}}}, [("a", a2, {"velocity": 50.0}, {})])
+                fv = os.path.join(tmp, "cap%d_%d.vtk" % (it, int(capped)))
+                sc.export_vtk(filename=fv, section_resolution=R)
+                out.append(read_vtk(fv))
+        except Exception as e:
+            chk.violation("vtk-caps:raises", dict(rep, error=repr(e)))
+            continue
+        chk.case(dict(kind="vtk-caps", options=sorted(o), R=R), nontrivial=True)
+        chk.count("vtk-caps=" + "+".join(sorted(o)))
+        (p0, q0, n0), (p1, q1, n1) = out
+        bad = None
+        if any(len(r_) != r_[0] + 1 or r_[0] < 3 or min(r_[1:]) < 0 or max(r_[1:]) >= len(p1) or len(set(r_[1:])) != r_[0] for r_ in q1):
+            bad = "a polygon record of the capped export is malformed (length, index range or a repeated vertex)"
+        elif n1 != sum(len(r_) for r_ in q1):
+            bad = "the POLYGONS header announces %d integers, the records hold %d" % (n1, sum(len(r_) for r_ in q1))
+        elif len(q1) <= len(q0):
+            bad = "closing the wing end added no polygon"
+        else:
+            key = lambda P, r_: tuple(sorted(tuple(np.round(P[i], 9)) for i in r_[1:]))
+            have = set(key(p1, r_) for r_ in q1)
+            missing = [r_ for r_ in q0 if key(p0, r_) not in have]
+            if missing:
+                bad = "%d of the %d panels of the plain export are not in the capped export" % (len(missing), len(q0))
+        if bad:
+            chk.violation("vtk-caps:panels", dict(rep, what=bad))
+
+
 def check_exports(chk, MX, tmp):
     from stl import mesh
     rng = chk.rng
@@ -634,6 +690,14 @@ def check_exports(chk, MX, tmp):
                         c_["chord_fraction"] = 0.25
         R = rng.choice([5, 6, 8, 9, 12])
         close_te = rng.random() < 0.7
+        sheared = it % 3 == 1
+        if sheared:
+            # the documented export option "shear_dihedral" on every surface (wings with dihedral: the sections stay in planes y = const)
+            for w in ac["wings"].values():
+                w["shear_dihedral"] = True
+                if not isinstance(w.get("dihedral"), (list, str)) and abs(float(w.get("dihedral", 0.0))) < 2.0 and "quarter_chord_locs" not in w:
+                    w["dihedral"] = round(rng.uniform(5.0, 25.0) * rng.choice([-1, 1]), 1)
+            chk.count("export:shear_dihedral")
         try:
             sc = gen.build_scene(MX, sd, [(name, ac, st, cs)])
             fn = os.path.join(tmp, "e%d.stl" % it)
@@ -682,7 +746,7 @@ def check_exports(chk, MX, tmp):
             P = seg_points[sn]
             ok = np.zeros(len(P), dtype=bool)
             for s_ in nodes:
-                loc, c = section_local(seg, float(s_), P)              # (an elliptic tip has zero chord: the outline collapses to a point)
+                loc, c = section_local(seg, float(s_), P, shear=bool(ac["wings"][sn.rsplit("_", 1)[0]].get("shear_dihedral", False)))   # (an elliptic tip has zero chord: the outline collapses to a point)
                 tol = 1e-5 * (1.0 + np.abs(P).max())
                 ok |= (np.abs(loc[:, 1]) <= tol) & (loc[:, 0] <= 0.27 * c + tol) & (loc[:, 0] >= -0.77 * c - tol) & (np.abs(loc[:, 2]) <= 0.5 * c + tol)
             if not np.all(ok):
@@ -760,6 +824,7 @@ def run(chk):
         check_no_mutation(chk, MX, tmp)
         check_same_names(chk, MX)
         check_exports(chk, MX, tmp)
+        check_vtk_caps(chk, MX, tmp)
         check_outline_blend(chk, MX, tmp)
         check_scene_stl(chk, MX, tmp, chk.q(2, 12))
     finally:
